@@ -20,10 +20,23 @@ def _log(s):
 @TaskGenerator
 def step(k, x):
     _log('B %d %d' % (k, os.getpid()))
+    if os.path.exists(os.path.join(HERE, 'sleep-%d' % k)):
+        time.sleep(1.2)
     if os.path.exists(os.path.join(HERE, 'block-%d' % k)):
         open(os.path.join(HERE, 'inside-%d' % k), 'w').close()
-        while os.path.exists(os.path.join(HERE, 'block-%d' % k)):
-            time.sleep(0.01)
+        try:
+            while os.path.exists(os.path.join(HERE, 'block-%d' % k)):
+                time.sleep(0.01)
+        finally:
+            if os.path.exists(os.path.join(HERE, 'slow-cleanup')):
+                # the function's own cleanup takes a while (closing files, removing scratch data ...)
+                open(os.path.join(HERE, 'cleaning-%d' % k), 'w').close()
+                t0 = time.time()
+                while time.time() - t0 < 1.5:
+                    try:
+                        time.sleep(0.05)
+                    except BaseException:
+                        pass
     _log('E %d %d' % (k, os.getpid()))
     return x + k
 
@@ -80,7 +93,7 @@ def lock_files(d):
     return sorted(os.listdir(p)) if os.path.exists(p) else []
 
 
-def signal_case(n, victim_k, sig, extra_args=(), env_extra=None, jugdir_prefix=''):
+def signal_case(n, victim_k, sig, extra_args=(), env_extra=None, jugdir_prefix='', repeat=False):
     """run `jug execute`, deliver `sig` while the worker is inside step(victim_k); then inspect, then let a second worker finish.
     returns a dict of observations"""
     d = core.scratch_dir('jugproc-')
@@ -92,13 +105,23 @@ def signal_case(n, victim_k, sig, extra_args=(), env_extra=None, jugdir_prefix='
         p = jug_popen(['execute', 'jugfile.py'] + common, d, env_extra)
         t0 = time.time()
         while not os.path.exists(os.path.join(d, 'inside-%d' % victim_k)):
-            if p.poll() is not None or time.time() - t0 > 60:
+            if p.poll() is not None or time.time() - t0 > 240:
                 out = p.communicate()[0]
                 return {'error': 'worker never reached the task: rc=%s out=%s' % (p.returncode, out[-500:])}
             time.sleep(0.01)
+        if repeat:
+            open(os.path.join(d, 'slow-cleanup'), 'w').close()
         p.send_signal(sig)
+        if repeat:
+            # an impatient user / batch system repeats the request while the task function is still unwinding
+            t1 = time.time()
+            while not os.path.exists(os.path.join(d, 'cleaning-%d' % victim_k)) and time.time() - t1 < 60 and p.poll() is None:
+                time.sleep(0.01)
+            time.sleep(0.2)
+            if p.poll() is None:
+                p.send_signal(sig)
         try:
-            out1 = p.communicate(timeout=30)[0]
+            out1 = p.communicate(timeout=120)[0]       # generous: the machine may be heavily loaded; a worker that ignores the signal never ends
         except subprocess.TimeoutExpired:
             p.kill()
             out1 = p.communicate()[0]
@@ -169,13 +192,79 @@ def stop_family(run, rng, n=4):
         sig = [signal.SIGTERM, signal.SIGINT][i % 2]
         args = [['--no-check-environment'], ['--keep-going'], [], ['--keep-failed', '--keep-going'], ['--aggressive-unload'], ['--keep-failed']][i % 6]
         k = rng.choice([1, 2, 3, 101])
-        params = {'sig': int(sig), 'k': k, 'args': args, 'n': 4}
-        obs = signal_case(4, k, sig, args)
+        repeat = (i % 4 == 0)       # a repeated SIGTERM while the task function is still unwinding
+        params = {'sig': int(sig), 'k': k, 'args': args, 'n': 4, 'repeat': repeat}
+        obs = signal_case(4, k, sig, args, repeat=repeat)
         judge_stop(run, obs, params)
         run.case(('proc-stop', i, run.seed), nontrivial='error' not in obs)
         run.count('process_mode_stop_cases')
         if i == 0:
             run.sample({'process_mode': params, 'observed': {k: v for k, v in obs.items() if k in ('rc1', 'locks_after_signal', 'rc2', 'value', 'expected')}})
+
+
+def exit_condition_case(kind):
+    """real `jug execute` under one of the documented exit conditions; returns observations"""
+    d = core.scratch_dir('jugproc-')
+    try:
+        with open(os.path.join(d, 'jugfile.py'), 'w') as f:
+            f.write(JUGFILE.replace('%(n)d', '4'))
+        common = ['--will-cite', '--nr-wait-cycles', '2', '--wait-cycle-time', '0']
+        env = {}
+        stopfile = None
+        if kind == 'stop-file-default':
+            stopfile = '__jug_please_stop_running.txt'
+        elif kind == 'stop-file-env':
+            env['JUG_EXIT_IF_FILE_EXISTS'] = 'custom-stop.txt'
+            stopfile = 'custom-stop.txt'
+        elif kind == 'stop-file-default-with-env':
+            env['JUG_EXIT_IF_FILE_EXISTS'] = 'custom-stop.txt'
+            stopfile = '__jug_please_stop_running.txt'
+        elif kind == 'max-tasks':
+            env['JUG_MAX_TASKS'] = '2'
+        elif kind == 'max-time':
+            env['JUG_MAX_SECONDS'] = '1'
+            open(os.path.join(d, 'sleep-1'), 'w').close()
+        if stopfile:
+            open(os.path.join(d, stopfile), 'w').close()
+        r1 = jug_cmd(['execute', 'jugfile.py'] + common, d, env)
+        calls1 = read_calls(d)
+        obs = {'rc1': r1.returncode, 'out1': r1.stdout[-300:], 'begun1': sorted({c[1] for c in calls1 if c[0] == 'B'}), 'ended1': sorted({c[1] for c in calls1 if c[0] == 'E'}), 'locks1': lock_files(d)}
+        if stopfile:
+            os.unlink(os.path.join(d, stopfile))
+        r2 = jug_cmd(['execute', 'jugfile.py'] + common, d)
+        obs['rc2'] = r2.returncode
+        obs['locks_end'] = lock_files(d)
+        obs['check_rc'] = jug_cmd(['check', 'jugfile.py', '--will-cite'], d).returncode
+        ends = {}
+        for c in read_calls(d):
+            if c[0] == 'E':
+                ends[c[1]] = ends.get(c[1], 0) + 1
+        obs['twice'] = sorted(k for k, v in ends.items() if v > 1)
+        obs['total_tasks'] = 8
+        return obs
+    finally:
+        core.rm_rf(d)
+
+
+def exit_condition_family(run, kinds):
+    for kind in kinds:
+        obs = exit_condition_case(kind)
+        rp = {'kind': 'process-exit-condition', 'condition': kind}
+        run.case(('proc-exit-condition', kind), nontrivial=True)
+        run.count('process_mode_exit_condition_cases')
+        n1 = len(obs['ended1'])
+        if kind.startswith('stop-file') and (n1 != 0 or obs['begun1']):
+            run.fail('stop-file-ignored', 'exit condition %s: the stop file existed before the worker started, yet it ran tasks %s (exit status %s)' % (kind, obs['begun1'], obs['rc1']), rp)
+        if kind == 'max-tasks' and n1 != 2:
+            run.fail('task-limit-ignored', 'JUG_MAX_TASKS=2: the worker completed %d tasks %s (exit status %s)' % (n1, obs['ended1'], obs['rc1']), rp)
+        if kind == 'max-time' and not (1 <= n1 < obs['total_tasks']):
+            run.fail('time-limit-ignored', 'JUG_MAX_SECONDS=1 with a first task of 1.2 s: the worker completed %d tasks (exit status %s)' % (n1, obs['rc1']), rp)
+        if obs['rc1'] != 0:
+            run.fail('exit-condition-status', 'exit condition %s: exit status %s (expected 0): %s' % (kind, obs['rc1'], obs['out1']), rp)
+        if obs['locks1']:
+            run.fail('lock-left-after-stop', 'exit condition %s: the worker left lock files %s' % (kind, obs['locks1']), rp)
+        if obs['rc2'] != 0 or obs['check_rc'] != 0 or obs['locks_end'] or obs['twice']:
+            run.fail('continuation-incomplete', 'after exit condition %s a second `jug execute` did not finish correctly: rc=%s check=%s locks=%s executed twice=%s' % (kind, obs['rc2'], obs['check_rc'], obs['locks_end'], obs['twice']), rp)
 
 
 def judge_kill(run, obs, params):
